@@ -22,12 +22,20 @@ for f in sorted(byfile):
     blocks = sorted(byfile[f]); t = sum(n for _, _, n, _ in blocks); u = sum(n for _, _, n, c in blocks if c == 0)
     tot += t; unc += u
     print(f'== {f}: {t-u}/{t} statements executed')
-    last = None
+    perfn = collections.OrderedDict()
     for a, b, n, c in blocks:
-        if c: continue
         fn = [l for i, l in funcs if i <= a]
         fn = fn[-1] if fn else '?'
-        if fn != last: print('  ' + fn.rstrip('{ ')[:110]); last = fn
-        for i in range(a, min(b, a + 5) + 1): print(f'      {i:5d}  {src[i-1].strip()[:120]}')
-        print('      --')
+        perfn.setdefault(fn, []).append((a, b, n, c))
+    never = [fn for fn, bl in perfn.items() if all(c == 0 for _, _, _, c in bl)]
+    if never:
+        print('  NEVER CALLED:')
+        for fn in never: print('    ' + fn.rstrip('{ ')[:120])
+    for fn, bl in perfn.items():
+        if fn in never or all(c for _, _, _, c in bl): continue
+        print('  PARTIAL ' + fn.rstrip('{ ')[:110])
+        for a, b, n, c in bl:
+            if c: continue
+            for i in range(a, min(b, a + 4) + 1): print(f'      {i:5d}  {src[i-1].strip()[:120]}')
+            print('      --')
 print(f'TOTAL {tot-unc}/{tot}')
